@@ -1,5 +1,6 @@
 import LZ4V.Properties.C07
 import LZ4V.Properties.C03E2E
+import LZ4V.Properties.C03Linked
 /-!
 # C07 — produced frames conform to the frame format: the frame BYTES of the fast levels, as a function
 
